@@ -140,6 +140,9 @@ func (sm *StreamManager) resume() error {
 		// TODO: Make it possible to define logger to log disconnect and reconnection attempts
 		sm.Metrics = initMetrics()
 		if err = sm.client.Resume(); err != nil {
+			if verifEnabled {
+				vpoint("sm.attempt", "err", true)
+			}
 			var actualErr ConnError
 			if xerrors.As(err, &actualErr) {
 				if actualErr.Permanent {
@@ -148,6 +151,9 @@ func (sm *StreamManager) resume() error {
 			}
 			backoff.wait()
 		} else { // We are connected, we can leave the retry loop
+			if verifEnabled {
+				vpoint("sm.attempt", "err", false)
+			}
 			break
 		}
 	}
